@@ -118,6 +118,7 @@ func TestVerifC19(t *testing.T) {
 			threads: [][]c19Upload{{up("ch1", v, "init")}, {up("ch1", a, "init")}}},
 		{name: "two-existing-channels", prior: []c19Upload{up("ch1", v, "init"), up("ch2", v, "init"), up("ch3", a, "init")},
 			threads: [][]c19Upload{{up("ch1", v, "0")}, {up("ch2", v, "0")}, {up("ch3", a, "0")}}},
+		{name: "same-track-two-segments", prior: []c19Upload{up("ch1", v, "init"), up("ch1", v, "0")}, threads: [][]c19Upload{{up("ch1", v, "1")}, {up("ch1", v, "2")}}},
 		{name: "media-of-two-tracks", prior: []c19Upload{up("ch1", v, "init"), up("ch1", a, "init")}, threads: [][]c19Upload{{up("ch1", v, "0"), up("ch1", v, "1")}, {up("ch1", a, "0"), up("ch1", a, "1")}}},
 	}
 	bound := 2
